@@ -806,6 +806,24 @@ pub fn run_c13(ctx: &mut Ctx) {
     random_cases!(ctx, n, |r, _i| {
         history(ctx, &mut r, "C13", true);
     });
+    // headroom sweeps for the programs that force every outcome of a reclaiming restore
+    {
+        let mut f = Forest::new();
+        let d = super::c04::directed(&mut f);
+        let bases = [ClvmFlags::ENABLE_GC, ClvmFlags::ENABLE_GC | ClvmFlags::NEW_COST_MODEL, clvmr::chia_dialect::MEMPOOL_MODE | ClvmFlags::ENABLE_GC];
+        let mut id = 0;
+        for (p, e) in &d {
+            for b in &bases {
+                let cid = DIRECTED | id;
+                id += 1;
+                if !ctx.want(cid) || (ctx.miri && id % 7 != 0) {
+                    continue;
+                }
+                let mut r = ctx.rng(cid);
+                sweep_program(ctx, &mut r, &f, *p, *e, *b & !ClvmFlags::LIMIT_HEAP, if ctx.light { 600 } else { 8000 }, 0);
+            }
+        }
+    }
     // headroom sweeps for whole programs
     let n2 = ctx.n(12_000, 1_500_000);
     random_cases!(ctx, n2, |r, _i| {
@@ -818,11 +836,11 @@ pub fn run_c13(ctx: &mut Ctx) {
     });
 }
 
-fn prepared(f: &Forest, prog: u32, env: u32, plan: u64, heap_room: Option<usize>, atom_room: Option<usize>, pair_room: Option<usize>)
+fn prepared(f: &Forest, prog: u32, env: u32, plan: (u64, u64), heap_room: Option<usize>, atom_room: Option<usize>, pair_room: Option<usize>)
     -> Option<(Allocator, NodePtr, NodePtr, usize)> {
     // first build unlimited to learn the footprint of the inputs
     let mut probe = Allocator::new();
-    crate::util::materialize2(f, &mut probe, prog, env, plan, 4)?;
+    crate::util::materialize2(f, &mut probe, prog, env, plan.0, plan.1)?;
     let base = counts(&probe);
     drop(probe);
     let limit = match heap_room {
@@ -830,7 +848,7 @@ fn prepared(f: &Forest, prog: u32, env: u32, plan: u64, heap_room: Option<usize>
         None => u32::MAX as usize,
     };
     let mut a = Allocator::new_limited(limit);
-    let (p, e) = crate::util::materialize2(f, &mut a, prog, env, plan, 4)?;
+    let (p, e) = crate::util::materialize2(f, &mut a, prog, env, plan.0, plan.1)?;
     if let Some(room) = atom_room {
         a.add_ghost_atom(MAX_ATOMS - a.atom_count() - room).ok()?;
     }
@@ -847,14 +865,52 @@ fn program_sweep(ctx: &mut Ctx, r: &mut Rng) {
     cfg.secp = false;
     cfg.mutate_16 = 1;
     cfg.max_depth = 4;
+    cfg.big_atoms = r.chance(1, 3);
     let mut f = Forest::new();
     let p = crate::util::gen_program(&mut f, r, cfg);
-    let plan = r.u64();
-    let Some((mut a0, p0, e0, _)) = prepared(&f, p.prog, p.env, plan, None, None, None) else { return };
+    sweep_program(ctx, r, &f, p.prog, p.env, flags, 3000, 4);
+}
+
+/// unlimited run with event recording: outcome, counts before, bytes copied by inline substrings
+fn run_recorded(f: &Forest, prog: u32, env: u32, plan: (u64, u64), flags: ClvmFlags) -> Option<(crate::outcome::Outcome, crate::outcome::Counts, usize)> {
+    let (mut a0, p0, e0, _) = prepared(f, prog, env, plan, None, None, None)?;
     let before = counts(&a0);
-    let o = crate::outcome::run_chia(&mut a0, flags, p0, e0, 0);
+    let (o, ev) = crate::util::with_events(|| crate::outcome::run_chia(&mut a0, flags, p0, e0, 0));
+    let copies = ev.iter().filter(|e| matches!(e, clvmr::verif_hooks::Event::InlineSubstrCopy { .. })).count();
+    Some((o, before, copies))
+}
+
+fn sweep_program(ctx: &mut Ctx, r: &mut Rng, f: &Forest, prog: u32, env: u32, flags: ClvmFlags, max_need: usize, vary: u64) {
+    struct P {
+        prog: u32,
+        env: u32,
+    }
+    let p = P { prog, env };
+    let f = f.clone();
+    let plan = (r.u64(), vary);
+    let Some((o, before, copies)) = run_recorded(&f, p.prog, p.env, plan, flags) else { return };
     if !o.res.is_ok() {
         return;
+    }
+    // The counts the limits are enforced on must be the real ones: reclaiming memory (ENABLE_GC) must not
+    // make the allocator report less than the same run without reclamation. (Runs in which a substring of an
+    // inline atom copied bytes are left out: that difference is the recorded C12/C04 finding.)
+    if flags.contains(ClvmFlags::ENABLE_GC) {
+        if let Some((o_plain, _, copies_plain)) = run_recorded(&f, p.prog, p.env, plan, flags & !ClvmFlags::ENABLE_GC) {
+            if copies == 0 && copies_plain == 0 {
+                ctx.count("gc_runs_compared_with_plain_runs");
+                if o_plain.res.is_ok() && o_plain.counts != o.counts {
+                    let mut j = crate::util::prog_json(&f, p.prog, p.env);
+                    j["flags"] = crate::outcome::flags_json(flags);
+                    j["counts_with_reclamation"] = o.counts.to_json();
+                    j["counts_without_reclamation"] = o_plain.counts.to_json();
+                    ctx.violation("reported-counts-under-reclamation-differ-from-real-usage", j);
+                    return;
+                }
+            } else {
+                ctx.count("gc_comparison_skipped_inline_substr_copy");
+            }
+        }
     }
     let base = o.res.clone();
     let has_guard = crate::util::contains_atom(&f, p.prog, &[&[36]]) || crate::util::contains_atom(&f, p.env, &[&[36]]);
@@ -864,7 +920,7 @@ fn program_sweep(ctx: &mut Ctx, r: &mut Rng) {
         1 => o.counts.atoms - before.atoms,
         _ => o.counts.pairs - before.pairs,
     };
-    if final_need > 3000 {
+    if final_need > max_need {
         return;
     }
     let (expected_err, name) = match which {
